@@ -37,6 +37,7 @@ func init() {
 			{"C04.L7", "q", "guarded-by tables", c04l7},
 			{"C13.R4", "q", "shared: writes refresh the collision table with the full position (Bucket.get consults it first)", c13r4},
 			{"C04.L8", "t", "lock-order graph acyclic", c04l8},
+			{"C04.L9", "q", "lock contracts of helpers: entry lockset contains the lock their callers must hold", c04l9},
 			{"C01.R12", "q", "shared: version arithmetic", c01r12},
 			{"C01.R9", "q", "shared: explicit revisions compared on absolute values", c01r9},
 			{"C09.R8", "q", "shared: buffer copies are exact", c09r8},
